@@ -22,6 +22,11 @@ def gen_one(rng, seed):
     cmds += [["sleep", 0.003], ["shutdown", "retry"]]
     sp["cmds"] = cmds
     sp["queue_size"] = rng.choice([1, 2, 5])
+    if rng.random() < 0.25:
+        # a background thread dies (its teardown may take a while) around the moment a save is requested
+        sp["faults"] = [{"where": rng.choice(["a.step", "t.train", "a.hookP", "t.hookP", "a.hookR", "e.setup"]), "k": rng.randint(1, 3)}]
+        sp["teardown_dur"] = rng.choice([0, 0.002, 0.01])
+        sp["save_at_ticks"] = sorted(set(sp["save_at_ticks"]) | set(rng.sample(range(1, 12), 3)))
     return sp
 
 
